@@ -871,3 +871,23 @@ Definition wit_commit_enqueued : list label :=
    LRNextCall; LRNextCtx; LRCgClose; LGPublishAbort; LGClose; LFnSeeDone 0; LFnHandler 0; LGJoined;
    LGLeaveCoord true; LGLeaveReq; LRCgWait; LRDone; LCloseStep 0; LCloseStep 0;
    LCall KCommit; LCEnq 0; LCtx 0; LRetCtx 0].
+
+(* the strict reading of "leaves the group it had joined": a later JoinGroup request does not
+   release the obligation to leave with the member id the coordinator handed out *)
+Fixpoint mstat_strict (h : list event) {struct h} : nat :=
+  match h with
+  | [] => 0
+  | EJoined m :: _ => m
+  | EReq ALeave _ :: _ | ELeaveUnreach _ :: _ => 0
+  | _ :: t => mstat_strict t
+  end.
+Definition chk_leave_strict (e : event) (h : list event) : bool :=
+  match e with EClosed _ => Nat.eqb (mstat_strict h) 0 | _ => true end.
+Fixpoint mon_leave_strict (h : list event) : bool :=
+  match h with [] => true | e :: t => chk_leave_strict e t && mon_leave_strict t end.
+(* member 0 joined, SyncGroup answers RebalanceInProgress (id kept), the re-join fails with another
+   error: joinGroup returns "" and the id is forgotten; Close then leaves nothing *)
+Definition wit_no_leave : list label :=
+  [LGCoord GOk; LGJoin (JOk 0); LGSync (GFail GRebalance); LRNextCall; LRNextErr; LGCoord GOk; LGJoin (JErr GOther);
+   LCloseCall; LCloseStep 0; LCloseStep 0; LCloseStep 0; LCloseStep 0;
+   LRNextCall; LRNextCtx; LRCgClose; LGOfferAbort; LRCgWait; LRDone; LCloseStep 0; LCloseStep 0].
